@@ -236,6 +236,25 @@ func gen(repo string) (map[string]string, error) {
 	}
 	fmt.Fprintf(&b, "/-- resync closure: lockPod, re-read ByIP, compare keys, podRunning with the re-read UID - before the first mutation -/\ndef resyncRechecksUnderLock : Bool := %s\n", fg.LeanBool(resyncOK))
 
+	// whole-key check of resync and Release (keyOwnedByRunningPod)
+	wkOK := false
+	if ko, err := rs.Fn("FloatingIPPlugin", "keyOwnedByRunningPod"); err == nil && closure != nil {
+		src := rs.Src(ko.Body)
+		helper := strings.Contains(src, "ByKeyAndIPRanges(keyObj.KeyInDB, nil)") &&
+			strings.Contains(src, "ipInfo.PodUid == podUid") &&
+			strings.Contains(src, "p.podRunning(keyObj.PodName, keyObj.Namespace, ipInfo.PodUid)") &&
+			guardIdx(rs, ko.Body, []string{"err != nil"}, "return true") >= 0 &&
+			strings.HasPrefix(rs.Src(ko.Body.List[len(ko.Body.List)-1]), "return false")
+		cRun := guardIdx(rs, closure.Body, []string{"running"}, "return")
+		cKey := guardIdx(rs, closure.Body, []string{"p.keyOwnedByRunningPod(obj.keyObj, obj.fip.PodUid)"}, "return")
+		cMut := firstIdx(rs, closure.Body, "cloudProviderUnAssignIP(", "p.reserveIP(", "unbindNoneDpPod(", "unbindDpPod(")
+		rRun := guardIdx(bd, rel.Body, []string{"running"}, "return fmt.Errorf")
+		rKey := guardIdx(bd, rel.Body, []string{"p.keyOwnedByRunningPod(k, fip.PodUid)"}, "return fmt.Errorf")
+		rMut := firstIdx(bd, rel.Body, "cloudProviderUnAssignIP(", "p.reserveIP(", "p.ipam.Release(")
+		wkOK = helper && before(cRun, cKey) && before(cKey, cMut) && cMut >= 0 && before(rRun, rKey) && before(rKey, rMut) && rMut >= 0
+	}
+	fmt.Fprintf(&b, "/-- resync closure and Release: after \"not running\" and before any mutation they leave the key alone while another record of it (other stored uid) belongs to a running pod -/\ndef resyncAndReleaseCheckWholeKey : Bool := %s\n", fg.LeanBool(wkOK))
+
 	pr, err := rs.Fn("FloatingIPPlugin", "podRunning")
 	if err != nil {
 		return nil, err
